@@ -146,6 +146,13 @@ def parsePairs : List String → Option (List Entry)
     | _, _, _ => none
   | _ => none
 
+def drainMerger (c : MCfg) (it : MIter) : Nat → List Entry → List Entry
+  | 0, acc => acc.reverse
+  | fuel + 1, acc =>
+    match mergerNext c it with
+    | (.ok k v, it') => drainMerger c it' fuel ({ key := k, val := v } :: acc)
+    | (.fail, _) => acc.reverse
+
 def stepMerger (s : St) (line : String) : Option (St × String) :=
   match line.trimAscii.toString.splitOn " " with
   | "m.new" :: id :: args =>
@@ -155,6 +162,17 @@ def stepMerger (s : St) (line : String) : Option (St × String) :=
     match id.toNat? with
     | some i => match s.mergers[i]? with
       | some (mg, ds, tabs) =>
+        if (kv args "kind").getD "t" == "n" then
+          -- another merger as a source: by C05 it behaves like one table holding that merger's merged content
+          match s.mergers[kvNat args "sub" 0]? with
+          | some (mg2, ds2, tabs2) =>
+            let c2 := mkMCfg s mg2 ds2
+            let content := match mergerIter c2 tabs2 .iter [] with
+              | some it => drainMerger c2 it ((tabs2.map List.length).sum + 1) []
+              | none => []
+            some ({ s with mergers := s.mergers.insert i (mg, ds, tabs ++ [content]) }, "ok")
+          | none => none
+        else
         match parsePairs (args.filter fun a => !a.contains '=') with
         | some es => some ({ s with mergers := s.mergers.insert i (mg, ds, tabs ++ [es]) }, "ok")
         | none => none
